@@ -1522,7 +1522,12 @@ fn prov(ty: &str, label: &str, k: u64) -> Option<Result<Vec<u8>, ()>> {
                         if k % 2 == 1 { mb.add_asset(&wit, &n1, &Int::new(&bn(7)))?; }
                         tb.set_mint_builder(&mb);
                         tb.add_key_input(&g.kh(), &g.tx_in(), &Value::new(&bn(10 * ADA)));
-                        tb.add_output(&TransactionOutput::new(&g.key_address(), &Value::new(&bn(2 * ADA))))?;
+                        // the live line (k odd) goes to the output; NO change output: the whole surplus is the fee (since
+                        // /repo bb8d7fa a change output carrying the zero quantity would be refused by add_output)
+                        let out_v = if k % 2 == 1 { let mut a = Assets::new(); a.insert(&n1, &bn(7)); let mut ma = MultiAsset::new(); ma.insert(&script.hash(), &a);
+                                                    Value::new_with_assets(&bn(2 * ADA), &ma) } else { Value::new(&bn(2 * ADA)) };
+                        tb.add_output(&TransactionOutput::new(&g.key_address(), &out_v))?;
+                        tb.set_fee(&bn(8 * ADA));
                         tb.add_change_if_needed(&change)?;
                         Ok(tb.build_tx()?.to_bytes())
                     }
